@@ -100,8 +100,11 @@ impl Method for Vidya {
 		self.up_sum += change * (change > 0.) as u8 as ValueType;
 		self.dn_sum -= change * (change < 0.) as u8 as ValueType;
 
-		self.last_output = if self.up_sum != 0. || self.dn_sum != 0. {
-			let cmo = ((self.up_sum - self.dn_sum) / (self.up_sum + self.dn_sum)).abs();
+		// the sums are non-negative up to rounding: test the divisor itself, so that rounding residue of
+		// opposite signs (`up_sum == -dn_sum != 0`) cannot lead to a division by zero
+		let sum = self.up_sum + self.dn_sum;
+		self.last_output = if sum != 0. {
+			let cmo = ((self.up_sum - self.dn_sum) / sum).abs();
 			let f_cmo = self.f * cmo;
 			input.mul_add(f_cmo, (1.0 - f_cmo) * self.last_output)
 		} else {
